@@ -35,6 +35,18 @@ class Oracle(object):
     self.checked = 0
 
   def after(self, m, op, ev, live):
+    if op["op"] in ("calibrate", "query", "set_threshold", "restart") and ev.get("outcome") != "skip":
+      # "n_features_in_ equals the number of features of the points seen by the last fit":
+      # whatever else is done to the object (also a call that is rejected) until the next fit
+      h = live.get("handle")
+      if h is not None and h.est is not None and h.defined and h.d_fit is not None and "pre" not in op:
+        nfi = getattr(h.est, "n_features_in_", None)
+        m.cov["n_features_in_after_other_ops"] += 1
+        if nfi != h.d_fit:
+          raise Violation("postcondition", "cls=%s,n_features_in_,after=%s" % (h.name, op["op"]),
+                          "n_features_in_=%r after %s (%s), but the last fit saw %d features"
+                          % (nfi, op["op"], ev.get("outcome"), h.d_fit))
+      return
     if op["op"] != "fit" or ev.get("outcome") == "skip" or op.get("malformed"):
       return
     h = live["handle"]
@@ -164,9 +176,9 @@ def _rca_degenerate(m, h, op, D):
 def gen_plan(seed, tier):
   return gen_history(
       seed, tier, n_ops=(3, 9), dmax=8, pre_p=0.15, extras_p=0.0,
-      weights=dict(query=4, refit=30, threshold=0, calibrate=0, handout=0, mutate=0,
+      weights=dict(query=4, refit=30, handout=0, mutate=0,
                    restart=5, clone=3, ambient=8, eigsh=10, set_nondata=3, failfit=6,
-                   fault=0, new=12, interrupt=6), crash_sweep_p=0.05, int_dtype_p=0.12)
+                   fault=0, new=12, interrupt=6, calibrate=4, threshold=2), crash_sweep_p=0.05, int_dtype_p=0.12, calib_other_p=0.5)
 
 
 def run_plan(plan):
